@@ -18,6 +18,7 @@ import (
 	"testing"
 	"time"
 
+	"github.com/vx-labs/commitlog"
 	"github.com/vx-labs/mqtt-protocol/packet"
 	"github.com/vx-labs/wasp/v4/wasp"
 	"github.com/vx-labs/wasp/v4/wasp/messages"
@@ -54,6 +55,18 @@ func TestC15Child(t *testing.T) {
 	if err != nil {
 		fmt.Fprintf(out, "F open %v\n", err)
 		os.Exit(4)
+	}
+	if from := os.Getenv("C15_OFFER_OVERSIZED_THEN_APPEND_FROM"); from != "" {
+		base, _ := strconv.Atoi(from)
+		if err := log.Append(&packet.Publish{Header: &packet.Header{}, Topic: []byte("t"), Payload: make([]byte, commitlog.MaxEntrySize)}); err == nil {
+			fmt.Fprintf(out, "W %d oversized-publish-accepted\n", base)
+		}
+		for k := 0; k < 2; k++ {
+			if err := log.Append(&packet.Publish{Header: &packet.Header{}, Topic: []byte("t"), Payload: []byte(strconv.Itoa(base + k))}); err != nil {
+				fmt.Fprintf(out, "F append-after-refused-append %v\n", err)
+				os.Exit(4)
+			}
+		}
 	}
 	ctx, cancel := context.WithCancel(context.Background())
 	go func() { // safety net: never hang the parent
@@ -130,6 +143,9 @@ type round struct {
 type history struct {
 	N      int     `json:"initial_log_length"`
 	Rounds []round `json:"rounds"`
+	// Refused: after the initial appends a publish whose payload has exactly the size the commit log accepts at most
+	// (its encoding is larger) is offered to the log, which must refuse it without a trace; two more messages follow
+	Refused bool `json:"oversized_append_offered,omitempty"`
 }
 
 var smallPhases = []string{"cb-enter", "cb-exit", "before-persist", "after-persist", "stop-cancel", "stop-error"}
@@ -142,7 +158,14 @@ func c15histories() []history {
 	for _, n := range small {
 		for k := 0; k < n; k++ {
 			for _, ph := range smallPhases {
-				out = append(out, history{n, []round{{k, ph, 0}}})
+				out = append(out, history{N: n, Rounds: []round{{k, ph, 0}}})
+			}
+		}
+	}
+	for _, n := range []int{3, 11} {
+		for k := 0; k < n+2; k += vk.Pick(2, 1) {
+			for _, ph := range []string{"cb-enter", "cb-exit", "after-persist", "stop-cancel"} {
+				out = append(out, history{N: n, Rounds: []round{{k, ph, 0}}, Refused: true})
 			}
 		}
 	}
@@ -157,7 +180,7 @@ func c15histories() []history {
 							if !vk.Thorough() && (ph2 == "stop-error" || ph1 == "stop-error") && ap == 10 {
 								continue
 							}
-							out = append(out, history{n, []round{{k1, ph1, ap}, {k2, ph2, 0}}})
+							out = append(out, history{N: n, Rounds: []round{{k1, ph1, ap}, {k2, ph2, 0}}})
 						}
 					}
 				}
@@ -173,7 +196,7 @@ func c15histories() []history {
 					for _, p2 := range ph3 {
 						for k3 := max(0, k2-1); k3 < n+2; k3++ {
 							for _, p3 := range ph3 {
-								out = append(out, history{n, []round{{k1, p1, 1}, {k2, p2, 1}, {k3, p3, 0}}})
+								out = append(out, history{N: n, Rounds: []round{{k1, p1, 1}, {k2, p2, 1}, {k3, p3, 0}}})
 							}
 						}
 					}
@@ -201,16 +224,16 @@ func c15histories() []history {
 		r := k % 10
 		if vk.Thorough() || edge(k) || ((r == 0 || r == 1 || r == 9) && k%50 < 10) {
 			for _, ph := range bigPhases {
-				out = append(out, history{2600, []round{{k, ph, 0}}})
+				out = append(out, history{N: 2600, Rounds: []round{{k, ph, 0}}})
 			}
 		}
 		if truncates(k) {
-			out = append(out, history{2600, []round{{k, "before-truncate", 0}}}, history{2600, []round{{k, "after-truncate", 0}}})
+			out = append(out, history{N: 2600, Rounds: []round{{k, "before-truncate", 0}}}, history{N: 2600, Rounds: []round{{k, "after-truncate", 0}}})
 		}
 	}
 	// a consumer far behind (more than ten segments): nothing may be trimmed before it was handed over
 	for _, k := range []int{0, 150, 5100} {
-		out = append(out, history{6200, []round{{k, "cb-enter", 0}}}, history{6200, []round{{k, "after-persist", 600}}})
+		out = append(out, history{N: 6200, Rounds: []round{{k, "cb-enter", 0}}}, history{N: 6200, Rounds: []round{{k, "after-persist", 600}}})
 	}
 	boundary := []int{0, 1, 2, 9, 10, 11, 499, 500, 501, 1499, 1500, 1501, 1699, 1700, 1701, 1999, 2000, 2001, 2299, 2300, 2301}
 	for _, k1 := range boundary {
@@ -223,13 +246,13 @@ func c15histories() []history {
 					if !vk.Thorough() && p1 == "cb-exit" {
 						continue
 					}
-					out = append(out, history{2600, []round{{k1, p1, 0}, {k2, p2, 0}}})
+					out = append(out, history{N: 2600, Rounds: []round{{k1, p1, 0}, {k2, p2, 0}}})
 				}
 			}
 		}
 		if truncates(k1) {
 			for _, k2 := range []int{k1, k1 + 1, k1 + 5} {
-				out = append(out, history{2600, []round{{k1, "before-truncate", 0}, {k2, "cb-enter", 0}}}, history{2600, []round{{k1, "after-truncate", 0}, {k2, "cb-enter", 0}}})
+				out = append(out, history{N: 2600, Rounds: []round{{k1, "before-truncate", 0}, {k2, "cb-enter", 0}}}, history{N: 2600, Rounds: []round{{k1, "after-truncate", 0}, {k2, "cb-enter", 0}}})
 			}
 		}
 	}
@@ -257,9 +280,10 @@ type incarnation struct {
 	exit            int
 }
 
-func runChild(dir, outFile, crash string, until int) incarnation {
+func runChild(dir, outFile, crash string, until int, extraEnv ...string) incarnation {
 	cmd := exec.Command(os.Args[0], "-test.run", "^TestC15Child$")
 	cmd.Env = append(os.Environ(), "C15_DIR="+dir, "C15_OUT="+outFile, "C15_CRASH="+crash, "C15_UNTIL="+strconv.Itoa(until), "GOMAXPROCS=2")
+	cmd.Env = append(cmd.Env, extraEnv...)
 	err := cmd.Run()
 	var inc incarnation
 	if ee, ok := err.(*exec.ExitError); ok {
@@ -375,6 +399,11 @@ func TestC15Crash(t *testing.T) {
 		viol := func(sig, format string, a ...any) {
 			rep.Violate(vk.Violation{Sig: sig, Msg: fmt.Sprintf("history %+v: ", h) + fmt.Sprintf(format, a...), Replay: h})
 		}
+		if h.Refused {
+			// the first incarnation itself offers the oversized publish to its log (the same log object its consumer reads
+			// from) and then appends two more messages, before it starts consuming
+			total += 2
+		}
 		hDone := -1 // highest offset whose callback returned in an earlier incarnation
 		seen := map[int]bool{}
 		sawReplay, sawTrunc := false, false
@@ -434,7 +463,11 @@ func TestC15Crash(t *testing.T) {
 				// the crash point lies before the restart position or beyond the log: skip this history
 				return
 			}
-			inc := runChild(dir, filepath.Join(dir, fmt.Sprintf("out-%d.log", r)), crash, total-1)
+			var extra []string
+			if h.Refused && r == 0 {
+				extra = []string{"C15_OFFER_OVERSIZED_THEN_APPEND_FROM=" + strconv.Itoa(total-2)}
+			}
+			inc := runChild(dir, filepath.Join(dir, fmt.Sprintf("out-%d.log", r)), crash, total-1, extra...)
 			expectKill := !strings.HasPrefix(rd.Phase, "stop-")
 			if inc.exit == 7 {
 				// the consumer restarted after the crash point (legal: it lies at most one message back);
